@@ -1,6 +1,69 @@
-//! (stub) — not generated yet.
-use super::{GenFile, Repo};
+//! `Gen/FmtDelegates.lean`: what each `fmt::Debug` / `fmt::Display` impl of a Hip type formats.
+//!
+//! Every such impl must be a pure delegation to the SAME trait's impl of the std view obtained
+//! through an accessor of `self` (`self.as_slice().fmt(f)`, `fmt::Debug::fmt(self.as_str(), f)`, …):
+//! then text equality with the std owned type IS content equality (C01).  Any other body is
+//! recorded as `other` so that the table theorem fails and names it.
 
-pub fn generate(_repo: &Repo) -> Result<Vec<GenFile>, String> {
-    Ok(vec![])
+use syn::{ImplItem, Item};
+
+use super::repo::loc;
+use super::{GenFile, Repo, HEADER};
+
+fn norm(s: &str) -> String {
+    s.chars().filter(|c| !c.is_whitespace()).collect()
+}
+
+pub fn generate(repo: &Repo) -> Result<Vec<GenFile>, String> {
+    use syn::spanned::Spanned;
+    let mut rows = vec![];
+    for (rel, ty) in [
+        ("src/bytes.rs", "HipByt"),
+        ("src/string.rs", "HipStr"),
+        ("src/os_string.rs", "HipOsStr"),
+        ("src/path.rs", "HipPath"),
+    ] {
+        let file = repo.file(rel)?;
+        for it in &file.ast.items {
+            let Item::Impl(imp) = it else { continue };
+            let Some((_, tr, _)) = &imp.trait_ else { continue };
+            let trn = tr.segments.last().map(|s| s.ident.to_string()).unwrap_or_default();
+            if trn != "Debug" && trn != "Display" {
+                continue;
+            }
+            let st = &imp.self_ty;
+            if !norm(&quote::quote!(#st).to_string()).starts_with(&format!("{ty}<")) {
+                continue;
+            }
+            for ii in &imp.items {
+                let ImplItem::Fn(f) = ii else { continue };
+                if f.sig.ident != "fmt" {
+                    continue;
+                }
+                let b = &f.block;
+                let body = norm(&quote::quote!(#b).to_string());
+                // accepted shapes: `{self.ACC().fmt(f)}` or `{fmt::TRAIT::fmt(self.ACC(),f)}`
+                let mut accessor = String::from("other");
+                for acc in ["as_slice", "as_str", "as_os_str", "as_path"] {
+                    if body == format!("{{self.{acc}().fmt(f)}}")
+                        || body == format!("{{fmt::{trn}::fmt(self.{acc}(),f)}}")
+                    {
+                        accessor = acc.to_string();
+                    }
+                }
+                rows.push(format!(
+                    "  {{ ty := \"{ty}\", trait_ := \"{trn}\", accessor := \"{accessor}\", loc := \"{}\" }}",
+                    loc(file, f.sig.span())
+                ));
+            }
+        }
+    }
+    if rows.is_empty() {
+        return Err("Gen/FmtDelegates: no Debug/Display impl found on the Hip types".into());
+    }
+    let mut s = String::from(HEADER);
+    s.push_str("namespace HipVerif.Gen.FmtDelegates\n\nstructure Row where\n  ty : String\n  trait_ : String\n  accessor : String\n  loc : String\n  deriving Repr, DecidableEq\n\ndef table : List Row := [\n");
+    s.push_str(&rows.join(",\n"));
+    s.push_str("\n]\n\nend HipVerif.Gen.FmtDelegates\n");
+    Ok(vec![GenFile { name: "FmtDelegates.lean".into(), content: s }])
 }
